@@ -1,0 +1,147 @@
+//go:build verif
+
+package dht
+
+// Read-only observation hooks for the deterministic-simulation harness in
+// /verif. Compiled only with `-tags verif`; nothing in the regular build refers
+// to this file.
+
+import (
+	"bytes"
+	"hash/fnv"
+	"iter"
+	"sort"
+	"sync/atomic"
+	"time"
+)
+
+// VerifNode is one routing-table entry with its raw liveness fields. No
+// good/questionable/bad classification is exported: the harness recomputes it.
+type VerifNode struct {
+	Bucket                     int
+	ID                         [20]byte
+	Addr                       string
+	IP                         []byte
+	Port                       int
+	LastGotQuery               time.Time
+	LastGotResponse            time.Time
+	FailedLastQuestionablePing bool
+	NumReceivesFrom            int
+}
+
+type VerifTable struct {
+	RootID     [20]byte
+	K          int
+	Nodes      []VerifNode
+	BucketLens [160]int
+	// Address index: address string -> IDs recorded for it.
+	Addrs map[string][][20]byte
+	// Number of pending outbound transactions.
+	Transactions int
+}
+
+// VerifTableSnapshot copies the routing table under the server lock.
+func (s *Server) VerifTableSnapshot() (t VerifTable) {
+	s.mu.RLock()
+	defer s.mu.RUnlock()
+	return s.verifTableSnapshotLocked()
+}
+
+// VerifTableSnapshotNoLock is for callers that know the server lock is free
+// and every other goroutine is blocked (the simulator's quiescent points).
+func (s *Server) VerifTableSnapshotNoLock() (t VerifTable) {
+	return s.verifTableSnapshotLocked()
+}
+
+func (s *Server) verifTableSnapshotLocked() (t VerifTable) {
+	t.RootID = s.table.rootID.AsByteArray()
+	t.K = s.table.k
+	t.Transactions = s.transactions.NumActive()
+	for i := range s.table.buckets {
+		b := &s.table.buckets[i]
+		t.BucketLens[i] = len(b.nodes)
+		for n := range b.nodes {
+			t.Nodes = append(t.Nodes, VerifNode{
+				Bucket:                     i,
+				ID:                         n.Id.AsByteArray(),
+				Addr:                       n.Addr.String(),
+				IP:                         append([]byte(nil), n.Addr.IP()...),
+				Port:                       n.Addr.Port(),
+				LastGotQuery:               n.lastGotQuery,
+				LastGotResponse:            n.lastGotResponse,
+				FailedLastQuestionablePing: n.failedLastQuestionablePing,
+				NumReceivesFrom:            n.numReceivesFrom,
+			})
+		}
+	}
+	sort.Slice(t.Nodes, func(i, j int) bool {
+		a, b := &t.Nodes[i], &t.Nodes[j]
+		if a.Bucket != b.Bucket {
+			return a.Bucket < b.Bucket
+		}
+		if c := bytes.Compare(a.ID[:], b.ID[:]); c != 0 {
+			return c < 0
+		}
+		return a.Addr < b.Addr
+	})
+	t.Addrs = make(map[string][][20]byte, len(s.table.addrs))
+	for a, ids := range s.table.addrs {
+		var l [][20]byte
+		for id := range ids {
+			l = append(l, id.AsByteArray())
+		}
+		sort.Slice(l, func(i, j int) bool { return bytes.Compare(l[i][:], l[j][:]) < 0 })
+		t.Addrs[a] = l
+	}
+	return
+}
+
+// VerifOrderSalt perturbs the (deterministic) iteration order that the
+// simulator's build substitutes for Go's randomised map order over a bucket.
+var VerifOrderSalt atomic.Uint64
+
+// verifOrdered iterates a bucket's node set in an order that is a pure
+// function of (VerifOrderSalt, set content). The simulator's source overlay
+// rewrites `range <x>.nodes` and `maps.Keys(<x>.nodes)` to go through it.
+func verifOrdered(m map[*node]struct{}) iter.Seq[*node] {
+	type ent struct {
+		n *node
+		h uint64
+	}
+	salt := VerifOrderSalt.Load()
+	l := make([]ent, 0, len(m))
+	for n := range m {
+		h := fnv.New64a()
+		var sb [8]byte
+		for i := range sb {
+			sb[i] = byte(salt >> (8 * i))
+		}
+		h.Write(sb[:])
+		id := n.Id.AsByteArray()
+		h.Write(id[:])
+		h.Write([]byte(n.Addr.String()))
+		l = append(l, ent{n, h.Sum64()})
+	}
+	sort.Slice(l, func(i, j int) bool {
+		if l[i].h != l[j].h {
+			return l[i].h < l[j].h
+		}
+		a, b := l[i].n.Id.AsByteArray(), l[j].n.Id.AsByteArray()
+		if c := bytes.Compare(a[:], b[:]); c != 0 {
+			return c < 0
+		}
+		return l[i].n.Addr.String() < l[j].n.Addr.String()
+	})
+	return func(yield func(*node) bool) {
+		for _, e := range l {
+			// The body may delete entries while iterating (eviction), as it may
+			// with a native map range; skip entries that are gone.
+			if _, ok := m[e.n]; !ok {
+				continue
+			}
+			if !yield(e.n) {
+				return
+			}
+		}
+	}
+}
